@@ -86,6 +86,17 @@ func (fb *freeBook) judge(sender int, in string, x *world) (valid bool, max uint
 	return true, coins
 }
 
+// alreadyRedeemed: the marker's nonce was redeemed before for the assigner it names (whatever else is wrong or
+// right with the marker).
+func (fb *freeBook) alreadyRedeemed(in string) bool {
+	m, ok := parseMarker(in)
+	if !ok {
+		return false
+	}
+	a := fb.assigners[m.Assigner]
+	return a != nil && a.nonces[m.Nonce]
+}
+
 func (fb *freeBook) observe(pl parsed, status string, x *world) {
 	if status != "success" || pl.typ != "sc" || pl.to != iStorage {
 		return
@@ -366,6 +377,43 @@ func fixedCases() [][]string {
 			}
 			g.validMarker(2, iClient0+2, "")
 		}),
+		// free storage, governance in between: redeem -> the owner registers the SAME assigner again (same limits,
+		// another total, another individual limit, another key, limits above the maxima, a stranger trying) -> the
+		// same marker again / a lower nonce / a fresh nonce. A marker nonce is honoured once over the whole history.
+		scripted("free-rereg", true, true, func(g *gstate) {
+			for k := 0; k < 30 && len(g.assigner) == 0; k++ {
+				g.r = rand.New(rand.NewSource(int64(200 + k)))
+				g.freeStorage()
+			}
+			k := 0
+			for n := range g.assigner {
+				k = assignerNo(n)
+			}
+			key := g.assigner[fmt.Sprintf("assigner%d", k)]
+			rc := iClient0 + 2
+			g.validMarker(4, rc, "")
+			g.validMarker(4, rc, "replayed-nonce")
+			g.register(k, key, 20, 5000, false) // same limits
+			g.validMarker(4, rc, "replayed-nonce after re-registration with the same limits")
+			g.register(k, key, 20, 6000, false) // another total
+			g.validMarker(4, rc, "replayed-nonce after re-registration with another total_limit")
+			g.validMarker(2, rc, "lower fresh nonce")
+			g.register(k, key, 10, 6000, false) // another individual limit
+			g.validMarker(4, rc, "replayed-nonce after re-registration with another individual_limit")
+			g.validMarker(2, rc, "replayed-nonce")
+			g.register(k, key, 20, 20000, false) // above max_total_free_allocation: refused, nothing changes
+			g.register(k, key, 200, 6000, false) // above max_individual_free_allocation
+			g.register(k, key, 20, 7000, true)   // a stranger
+			g.validMarker(4, rc, "replayed-nonce")
+			g.register(k, 1-key, 20, 4000, false) // another key and a lower total
+			g.validMarker(4, rc, "replayed-nonce re-signed with the assigner's new key")
+			g.validMarker(2, rc, "replayed-nonce re-signed with the assigner's new key")
+			g.validMarker(6, rc, "fresh nonce under the new key")
+			g.validMarker(6, iClient0+3, "replayed-nonce by another recipient")
+			g.register(k, 1-key, 20, 0.5, false) // total below what is already redeemed
+			g.validMarker(7, rc, "over the lowered total")
+			g.validMarker(6, rc, "replayed-nonce")
+		}),
 		// rewards: the approved-minter sites (stakepool.MintRewards / MintServiceCharge) on storagesc and zcnsc
 		scripted("rewards", true, false, func(g *gstate) { rewardsScript(g) }),
 		scripted("rewards-fork", false, true, func(g *gstate) { rewardsScript(g) }),
@@ -425,7 +473,9 @@ func rewardsScript(g *gstate) {
 	if len(g.auths) < 2 {
 		return
 	}
-	spr := func(a int) string { return j(map[string]interface{}{"provider_type": 5, "provider_id": keys.signer[a].id}) }
+	spr := func(a int) string {
+		return j(map[string]interface{}{"provider_type": 5, "provider_id": keys.signer[a].id})
+	}
 	g.emit(call{typ: "sc", sender: iClient0 + 3, to: iZcn, fn: "add-to-delegate-pool", value: 30e10, fee: 1e8, in: spr(0)})
 	g.emit(call{typ: "sc", sender: iClient0 + 3, to: iZcn, fn: "add-to-delegate-pool", value: 30e10, fee: 1e8, in: spr(1)})
 	for n := int64(1); n <= 2; n++ {
